@@ -314,7 +314,7 @@ def ro_call(r, inv):
         (4, "sdsetattr %d %d 0 %s %d %d %d" % (r.choice([0, 1, 1, 2]), d if r.random() < 0.8 else 0, nm(r, "at"), r.randrange(6), r.choice([1, 3]), r.randrange(50))),
         (2, "sdreadattr %d %d 0 0" % (r.choice([0, 1, 2]), d)),
         (3, "sdsetdimname %d 0 %s" % (d, nm(r, "dn"))), (3, "sdsetdimscale %d 0 %d %d" % (d, r.randrange(4), r.randrange(50))),
-        (1, "sdgetdimscale %d 0" % d), (2, "sdsetdimstrs %d 0" % d), (2, "sdsetdimval_comp %d 0 %d" % (d, r.choice([0, 1]))),
+        (5, "sdgetdimscale %d 0" % d), (2, "sdsetdimstrs %d 0" % d), (2, "sdsetdimval_comp %d 0 %d" % (d, r.choice([0, 1]))),
         (3, "sdsetdatastrs %d" % d), (3, "sdsetcal %d" % d), (3, "sdsetfillvalue %d %d" % (d, r.randrange(50))),
         (3, "sdsetrange %d %d" % (d, r.randrange(50))), (3, "sdsetcompress %d %d" % (d, r.choice([1, 2, 3]))),
         (3, "sdsetchunk %d %d" % (d, r.choice([0, 1, 3]))), (3, "sdsetexternalfile %d %d 0" % (d, x)),
